@@ -1,0 +1,19 @@
+//go:build verif
+
+package key
+
+// Contracts for the verification framework in /verif (comment-only file,
+// compiled only with -tags verif; see /verif/DESIGN.md).
+
+//@ # ---------------------------------------------------------------- C17: keys and comments stay parallel
+//@ func GetPublicKeysFromBytes(data)
+//@   let p0 = old(calls(ssh.ParseAuthorizedKey))
+//@   ensures err == nil ==> len(keys) >= 1 && len(keys) == len(comments)
+//@   ensures err != nil ==> keys == nil && comments == nil
+//@   ensures [pairs-come-from-one-parse-result] err == nil ==> forall(i, 0 <= i && i < len(keys),
+//@     exists(c, p0 <= c && c < calls(ssh.ParseAuthorizedKey), keys[i] == ret(ssh.ParseAuthorizedKey, c, 0) && comments[i] == ret(ssh.ParseAuthorizedKey, c, 1) && keys[i] != nil))
+//@   loop 1:
+//@     invariant len(keys) == len(comments) && calls(ssh.ParseAuthorizedKey) >= p0
+//@     invariant (keys == nil || fresh(arr(keys))) && (comments == nil || fresh(arr(comments)))
+//@     invariant forall(i, 0 <= i && i < len(keys),
+//@       exists(c, p0 <= c && c < calls(ssh.ParseAuthorizedKey), keys[i] == ret(ssh.ParseAuthorizedKey, c, 0) && comments[i] == ret(ssh.ParseAuthorizedKey, c, 1) && keys[i] != nil))
